@@ -1434,8 +1434,80 @@ fn json_text_case(rng: &mut Rng) -> Vec<u8> {
             ]);
             t.as_bytes().to_vec()
         }
-        _ => hand_json(rng),
+        10 => array_form_text(rng, id),
+        _ => if rng.chance(1, 2) { array_form_text(rng, id) } else { hand_json(rng) },
     }
+}
+
+/// A struct (or struct variant) written either as an object or, as serde_json also accepts, as the
+/// positional ARRAY of its fields (serde's visit_seq).
+fn struct_text(arr: bool, fields: &[(&str, String)]) -> String {
+    if arr {
+        format!("[{}]", fields.iter().map(|(_, v)| v.clone()).collect::<Vec<_>>().join(","))
+    } else {
+        format!("{{{}}}", fields.iter().map(|(k, v)| format!("\"{k}\":{v}")).collect::<Vec<_>>().join(","))
+    }
+}
+
+/// Client messages with array-form structs at every nesting level (whole message, context, trace
+/// context, Duration as [secs,nanos]), each level choosing object or array independently, and one
+/// mutation: complete / too short (a trailing element dropped: every struct of the protocol then
+/// misses a non-default field) / too long (one element too many) / the Request context as an
+/// object without its deadline inside an array-form Request.
+fn array_form_text(rng: &mut Rng, id: u64) -> Vec<u8> {
+    let tid: Vec<String> = (0..16).map(|i| if i == 0 { (id % 256).to_string() } else { "0".into() }).collect();
+    let mut tc_f = vec![
+        ("trace_id", format!("[{}]", tid.join(","))),
+        ("span_id", (id % 1000).to_string()),
+        ("sampling_decision", if id % 2 == 0 { "\"Sampled\"".to_string() } else { "\"Unsampled\"".to_string() }),
+    ];
+    let mut dur_f = vec![("secs", rng.pick(&[0u64, 3, 251, 1 << 40]).to_string()), ("nanos", rng.pick(&[0u32, 7, 999_999_999, 1_999_999_999]).to_string())];
+    // 0 complete; 1 too short; 2 too long; 3 deadline omitted (object context)
+    let mutation = rng.below(6).min(3);
+    let level = rng.below(4); // which struct the mutation hits: 0 message, 1 context, 2 trace context, 3 duration
+    let all_arr = rng.chance(1, 2);
+    let mut pick = |rng: &mut Rng| all_arr || rng.chance(1, 2);
+    let (a_msg, a_ctx, a_tc, a_dur) = (pick(rng), pick(rng), pick(rng), pick(rng));
+    let mutate = |f: &mut Vec<(&str, String)>, arr: bool| {
+        if arr {
+            match mutation {
+                1 => {
+                    f.pop();
+                }
+                2 => f.push(("extra", "null".to_string())),
+                _ => {}
+            }
+        }
+    };
+    if level == 3 {
+        mutate(&mut dur_f, a_dur);
+    }
+    if level == 2 {
+        mutate(&mut tc_f, a_tc);
+    }
+    let dur = struct_text(a_dur, &dur_f);
+    let tc = struct_text(a_tc, &tc_f);
+    if rng.chance(1, 3) {
+        let mut f = vec![("trace_context", tc), ("request_id", id.to_string())];
+        if level <= 1 {
+            mutate(&mut f, a_msg);
+        }
+        return format!("{{\"Cancel\":{}}}", struct_text(a_msg, &f)).into_bytes();
+    }
+    let ctx = if mutation == 3 {
+        struct_text(false, &[("trace_context", tc)])
+    } else {
+        let mut f = vec![("deadline", dur), ("trace_context", tc)];
+        if level == 1 {
+            mutate(&mut f, a_ctx);
+        }
+        struct_text(a_ctx, &f)
+    };
+    let mut f = vec![("context", ctx), ("id", id.to_string()), ("message", "\"arr\"".to_string())];
+    if level == 0 {
+        mutate(&mut f, a_msg);
+    }
+    format!("{{\"Request\":{}}}", struct_text(a_msg, &f)).into_bytes()
 }
 
 const TRACE_J: &str = r#"{"trace_id":[7,0,0,0,0,0,0,0,0,0,0,0,0,0,0,0],"span_id":3,"sampling_decision":"Sampled"}"#;
@@ -1451,7 +1523,7 @@ fn json_response_text(rng: &mut Rng) -> Vec<u8> {
         };
         resp_of_tok(&t).unwrap()
     };
-    match rng.below(8) {
+    match rng.below(9) {
         0 | 1 => {
             let v = serde_json::to_vec(&real(rng)).unwrap();
             sprinkle_ws(rng, &v)
@@ -1467,6 +1539,22 @@ fn json_response_text(rng: &mut Rng) -> Vec<u8> {
             let full = serde_json::to_vec(&real(rng)).unwrap();
             let k = rng.below(full.len() as u64) as usize;
             full[..k].to_vec()
+        }
+        7 => {
+            let err = rng.chance(1, 2);
+            let k = *rng.pick(&["0", "10", "17", "18", "4294967296"]);
+            let inner = if err {
+                if rng.chance(1, 2) { format!(r#"{{"Err":[{k},"d"]}}"#) } else { format!(r#"{{"Err":{{"kind":{k},"detail":"d"}}}}"#) }
+            } else {
+                r#"{"Ok":"x"}"#.to_string()
+            };
+            match rng.below(4) {
+                0 => format!("[{id},{inner}]"),
+                1 => format!("[{id}]"),
+                2 => format!("[{id},{inner},0]"),
+                _ => format!(r#"[{id},{{"Err":[{k}]}}]"#),
+            }
+            .into_bytes()
         }
         _ => rng.pick(&[
             r#"{"request_id":1}"#, r#"{"message":{"Ok":"x"}}"#, r#"{"request_id":1,"message":"Ok"}"#,
@@ -1624,12 +1712,17 @@ pub fn shape_definitions() -> String {
         }
     }
     let (ks, kd) = kind_leaf(&rsm).unwrap_or(("?".into(), "?".into()));
+    // which prefixes of each struct's ARRAY form the real Deserialize impls accept (visit_seq)
+    let cm_seq = shape::seq_table::<ClientMessage<String>>(&cm);
+    let rs_seq = shape::seq_table::<Response<String>>(&rsm);
     format!(
-        "Definition client_message_shape : shape :=\n  {}.\nDefinition response_shape : shape :=\n  {}.\nDefinition kind_ser_prim : prim := {}.\nDefinition kind_de_prim : prim := {}.\n",
+        "Definition client_message_shape : shape :=\n  {}.\nDefinition response_shape : shape :=\n  {}.\nDefinition kind_ser_prim : prim := {}.\nDefinition kind_de_prim : prim := {}.\nDefinition cm_seq_table : list (string * string * list bool) :=\n  {}.\nDefinition resp_seq_table : list (string * string * list bool) :=\n  {}.\n",
         shape::coq_shape(&cm),
         shape::coq_shape(&rsm),
         shape::prim_coq(&ks),
-        shape::prim_coq(&kd)
+        shape::prim_coq(&kd),
+        shape::coq_seq_table(&cm_seq),
+        shape::coq_seq_table(&rs_seq)
     )
 }
 
